@@ -1,7 +1,11 @@
 //! C14 correspondence + oracles: real `tensor_vault::Vault` vs the Lean vault model.
 //!
 //! Streams
-//!   directed : small fixed scenarios (TTL on read / write paths, revoke, delete, membership)
+//!   directed : small fixed scenarios.  FIRST on every run: `names-at-rest-known`, which deterministically
+//!              reproduces the three KNOWN findings (secret name readable in `_vault_ttl_grants`, in
+//!              `_vdel:` records and therefore in the snapshot).  Then TTL on read / write / admin /
+//!              delegate paths (`ttl-write-path` … are the regression cases for the defect fixed by
+//!              4e577a4d: an expired grant must not authorise anything), revoke, delete, membership
 //!   history  : random histories of 150-400 API calls by root + 3-5 identities (+2 groups) over
 //!              several secrets / namespaces; every answer compared with the model
 //!   perm     : random raw graphs (MEMBER chains / cycles / diamonds, legacy / unparsable /
@@ -12,6 +16,11 @@
 //!     delegate with no live (unexpired, unrevoked) sufficient grant reachable over MEMBER edges
 //!     within the horizon  ->  violation `tensor_vault.<op>/expired_grant_authorises` or
 //!     `tensor_vault.<op>/access_without_grant`
+//!   * a delegation whose effective level exceeds the requested level or the parent's own live level
+//!     ->  `tensor_vault.delegate/exceeds_parent_level`.  A delegation by a parent that holds less than
+//!     Admin is NOT a violation: the ceiling model ("agents delegate subsets of their own access",
+//!     docs/book/src/architecture/tensor-vault.md, with a Read-only agent delegating Read as its example)
+//!     is a documented capability separate from grant(); it is counted and recorded as an observation
 //!   * every key and every stored string / byte field of the vault's TensorStore, the graph's
 //!     TensorStore, the snapshot file, every audit record and every error string is searched for
 //!     each secret value and secret name (raw, base64, hex)
@@ -514,23 +523,32 @@ impl World {
     fn scan_everything(&self, rep: &mut Report, seen: &mut BTreeSet<String>) {
         self.scan_store(&self.vstore, "vault", rep, seen);
         self.scan_store(&self.gstore, "graph", rep, seen);
-        // snapshot bytes of the vault store
+        // snapshot images of the vault store: the checkpoint image `snapshot_bytes()` (bitcode, uncompressed) and
+        // the `save_snapshot` file (same image zstd-compressed: a string shows up raw there only where the
+        // compressor found no earlier match, so the first image is the deterministic one)
+        let mut images: Vec<(&str, Vec<u8>)> = Vec::new();
+        if let Ok(bytes) = self.vstore.snapshot_bytes() {
+            images.push(("TensorStore::snapshot_bytes", bytes));
+        }
         if let Ok(dir) = tempfile::tempdir() {
             let p = dir.path().join("snap.bin");
             if self.vstore.save_snapshot(&p).is_ok() {
                 if let Ok(bytes) = std::fs::read(&p) {
-                    rep.hit_n("scan.snapshot.bytes", bytes.len() as u64);
-                    for (what, list) in [("secret_value", &self.values), ("secret_name", &self.sec_names)] {
-                        for s in list.iter().filter(|s| s.len() >= 6) {
-                            for (form, nd) in needles(s) {
-                                if find_sub(&bytes, &nd) {
-                                    let class = format!("tensor_vault.snapshot/{what}_plaintext_at_rest");
-                                    rep.hit(&format!("violation.{class}"));
-                                    if seen.insert(format!("{class}|{form}")) {
-                                        rep.violation(&class, &format!("{what} readable ({form}) in TensorStore::save_snapshot bytes of the vault store"),
-                                            json!({"form": form, "needle_len": s.len(), "history (model protocol)": self.lines.iter().take(12).collect::<Vec<_>>()}));
-                                    }
-                                }
+                    images.push(("TensorStore::save_snapshot file", bytes));
+                }
+            }
+        }
+        for (img, bytes) in &images {
+            rep.hit_n("scan.snapshot.bytes", bytes.len() as u64);
+            for (what, list) in [("secret_value", &self.values), ("secret_name", &self.sec_names)] {
+                for s in list.iter().filter(|s| s.len() >= 6) {
+                    for (form, nd) in needles(s) {
+                        if find_sub(bytes, &nd) {
+                            let class = format!("tensor_vault.snapshot/{what}_plaintext_at_rest");
+                            rep.hit(&format!("violation.{class}"));
+                            if seen.insert(format!("{class}|{form}")) {
+                                rep.violation(&class, &format!("{what} readable ({form}) in {img} of the vault store"),
+                                    json!({"image": img, "form": form, "needle_len": s.len(), "history (model protocol)": self.lines.iter().take(12).collect::<Vec<_>>()}));
                             }
                         }
                     }
@@ -789,10 +807,29 @@ fn exec(w: &mut World, m: &mut Model, rep: &mut Report, r: &mut Rng, stream: &st
             if imp.starts_with("ok") {
                 w.delegs.retain(|(p, c, _)| !(p == parent && c == child));
                 w.delegs.push((*parent, *child, secs.clone()));
+                if eff > *level {
+                    rep.violation("tensor_vault.delegate/exceeds_parent_level", &format!("delegate answered effective level {eff} above the requested level {level}"), json!({"failing_call": line}));
+                }
                 for s in secs {
                     w.check_access(rep, "delegate", *parent, *s, *level, t0, &line);
-                    if *parent != 0 && *level < 3 && w.best_level(*parent, *s, t0, true) < 3 {
-                        rep.hit("observe.delegate_by_non_admin");
+                    if *parent != 0 {
+                        rep.hit("oracle.delegate_ceiling_checked");
+                        let own = w.best_level(*parent, *s, t0, true);
+                        if eff > own {
+                            rep.violation(
+                                "tensor_vault.delegate/exceeds_parent_level",
+                                &format!("child received level {eff} although the parent's own best live grant gives level {own}"),
+                                json!({"failing_call": line, "time_us": t0, "history_slice (model protocol)": w.relevant_history(*parent, *s)}),
+                            );
+                        }
+                        if own < 3 {
+                            if rep.distribution.get("observe.delegate_by_non_admin").is_none() {
+                                rep.observe(json!({"what": "delegate() succeeded for a parent whose own live level on the secret is below Admin",
+                                    "call": line, "parent_live_level": own, "effective_level_given_to_child": eff,
+                                    "why_not_a_violation": "documented ceiling-model delegation (tensor-vault.md 'Delegation'; delegation.rs module doc): the property's 'granting requires admin' is read as grant/grant_with_ttl/revoke; the oracle instead checks effective <= requested <= parent's own live level"}));
+                            }
+                            rep.hit("observe.delegate_by_non_admin");
+                        }
                     }
                     w.grants.push(Grant { ent: *child, sec: *s, level: eff, expiry: ttl_ms.map(|t| (t0 + t * 1000, t1 + t * 1000)), alive: true, deleg: Some((*parent, *child)) });
                 }
@@ -1022,6 +1059,21 @@ fn directed(m: &mut Model, rep: &mut Report, root: &Rng, seen: &mut BTreeSet<Str
     // each scenario: list of ops on a world with 3 users (1,2,3), groups 4,5, secrets 0..2
     let scenarios: Vec<(&str, Vec<Op>)> = vec![
         (
+            // runs FIRST on every seed: the two persistence sites that still hold the secret name in clear
+            // (known findings ttl.persist / delegation.persist, and their consequence in the snapshot).
+            // Long TTLs: nothing expires before the scan at the end of the scenario.
+            "names-at-rest-known",
+            vec![
+                Op::Set { req: 0, sec: 0, big: false },
+                Op::Set { req: 0, sec: 1, big: false },
+                Op::GrantTtl { req: 0, ent: 1, sec: 0, level: 2, ttl_ms: 600_000 },
+                Op::Delegate { parent: 1, child: 2, secs: vec![0], level: 1, ttl_ms: None },
+                Op::Delegate { parent: 0, child: 3, secs: vec![1], level: 2, ttl_ms: Some(600_000) },
+                Op::Get { req: 2, sec: 0 },
+                Op::Set { req: 3, sec: 1, big: false },
+            ],
+        ),
+        (
             "ttl-read-path",
             vec![
                 Op::Set { req: 0, sec: 0, big: false },
@@ -1141,8 +1193,17 @@ fn directed(m: &mut Model, rep: &mut Report, root: &Rng, seen: &mut BTreeSet<Str
     ];
     for (name, ops) in scenarios {
         let mut r = root.fork(name);
-        let mvs = if name == "size-limit-default" { 65_531 } else { 96 };
+        let mvs = if name == "size-limit-default" || name == "names-at-rest-known" { 65_531 } else { 96 };
         let mut w = World::new(&mut r, m, Pol { admin_limit: 1, write_limit: 2, horizon: 10 }, 3, mvs, 3, 3, 3);
+        if name == "names-at-rest-known" {
+            // names long enough for the plaintext scan whatever the seed (namespace prefix kept)
+            // pure ASCII (no JSON escaping in the persisted trackers), namespace convention of `sec_ids` kept
+            let ids = w.sec_ids.clone();
+            for (i, n) in w.sec_names.iter_mut().enumerate() {
+                let ns = ids[i] / 100;
+                *n = if ns == 0 { format!("known-finding-secret-name-{i}") } else { format!("kf-ns{ns}/known-finding-secret-name-{i}") };
+            }
+        }
         let mut ok = true;
         for op in &ops {
             if !exec(&mut w, m, rep, &mut r, "directed", op) {
@@ -1269,8 +1330,9 @@ fn perm_stream(m: &mut Model, rep: &mut Report, root: &Rng, n: usize) {
         let mut nontrivial = false;
         for e in 1..ne {
             for s in 0..2 {
+                let t = w.now();
                 let imp = w.vault.get_permission(&w.idents[e], &w.sec_names[s]).map_or("none".to_string(), |p| lvl(p).to_string());
-                let line = format!("perm {e} {}", w.sec_ids[s]);
+                let line = format!("perm {t} {e} {}", w.sec_ids[s]);
                 let model = m.ask(&line);
                 rep.hit(&format!("perm.answer.{imp}"));
                 if imp != "none" {
